@@ -210,6 +210,16 @@ def r18_predicates(model: Model, rep: Report) -> None:
         ("R18.4", f"{CG}.parents_attain_same_values", "parents_match", {"graph": ("cls", NXMG), "event": EVT, "a": V, "b": V},
          {f"{CG}.has_same_confounders", f"{CG}.nodes_attain_same_value"}, "all-parent-pairs",
          "same confounders, equally many differing parents, and EVERY pair of them (in base-name order) attains the same value"),
+        ("R18.4", f"{CG}.lemma_24_holds", "lemma_24", {"cf_graph": ("cls", NXMG), "event": EVT, "node": V, "node_at_interventions": V},
+         {f"{CG}.is_pw_equivalent"}, "lemma-24", "both nodes are in the graph and they are equivalent under the parallel-worlds assumption -- nothing else decides a merge"),
+        ("R18.4", f"{CG}.is_pw_equivalent", "pw_equivalent", {"graph": ("cls", NXMG), "event": EVT, "node1": V, "node2": V},
+         {f"{CG}.has_same_function", f"{CG}.parents_attain_same_values", f"{CG}.nodes_have_same_domain_of_values"}, "three-conditions",
+         "same mechanism AND parents attaining the same values AND the same domain of values; a node outside the graph is refused"),
+        ("R18.4", f"{CG}.nodes_have_same_domain_of_values", "same_domain", {"graph": ("cls", NXMG), "event": EVT, "a": V, "b": V},
+         {f"{CG}.has_same_confounders", f"{CG}.is_not_self_intervened", f"{CG}.value_of_self_intervention"}, "same-domain",
+         "same confounders and base variable, and either neither node is fixed by an intervention on itself or both are fixed to the same value"),
+        ("R18.4", f"{CG}.value_of_self_intervention", "own_value", {"a": V}, (), "own-value",
+         "the +base / -base among a counterfactual variable's own subscripts, else nothing"),
     ], REF, _mk, SetAlg(rewriter(graph_rewrite, c18_rewrite)), construct=construct, loc=loc)
 
 
